@@ -194,7 +194,10 @@ fn gen_plan(rng: &mut Prng, forced: Option<(u64, u64)>) -> (ClockSpec, u64) {
         }
         "zero_delta" => {
             let i = rng.below(300) as usize;
-            measured[i] = if rng.chance(1, 2) { 0 } else { rng.range(1, 4) << 32 };
+            if rng.chance(2, 3) {
+                measured[i] = if rng.chance(1, 2) { 0 } else { rng.range(1, 4) << 32 };
+            }
+            // (the warm-up probes are handled below, once the warm-up deltas exist)
         }
         "backwards" => {
             let k = rng.range(2, 5) as usize; // around the limit of 3
@@ -277,6 +280,12 @@ fn gen_plan(rng: &mut Prng, forced: Option<(u64, u64)>) -> (ClockSpec, u64) {
                 measured[i] = if i <= 271 { c } else { tail(rng, i) };
             }
         }
+    }
+    let mut warm = warm;
+    if CLASSES[class as usize] == "zero_delta" && forced.is_none() && measured.iter().all(|d| (*d as u32) != 0) {
+        // the zero 32-bit delta falls into one of the 100 warm-up probes
+        let i = rng.below(WARMUP as u64) as usize;
+        warm[i] = if rng.chance(1, 2) { 0 } else { rng.range(1, 4) << 32 };
     }
     plan.d = warm;
     plan.d.extend(measured);
